@@ -187,12 +187,28 @@ def rule_prim(ctx, crate):
                      'core::ptr::mut_ptr::<impl *mut T>::copy_to', 'core::ptr::mut_ptr::<impl *mut T>::copy_to_nonoverlapping',
                      'core::ptr::write_bytes', 'core::ptr::mut_ptr::<impl *mut T>::write_bytes'):
                 tys = callee_ty_args(t)
-                check_copy(tys[0] if tys else '?', t['args'][-1], fmt_span(t['span']), p.split('::')[-1])
+                elem = tys[0] if tys else '?'
+                check_copy(elem, t['args'][-1], fmt_span(t['span']), p.split('::')[-1])
+                # the copy is the primitive's access of the buffer: destination for a store, source for a load
+                last = p.split('::')[-1]
+                if last in ('copy_nonoverlapping', 'copy'):
+                    src_op, dst_op = t['args'][0], t['args'][1]
+                elif last.startswith('copy_from'):
+                    dst_op, src_op = t['args'][0], t['args'][1]
+                elif last.startswith('copy_to'):
+                    src_op, dst_op = t['args'][0], t['args'][1]
+                else:
+                    src_op, dst_op = None, t['args'][0]
+                side = dst_op if name in ('write', 'get_mut') else src_op
+                if side is not None:
+                    accesses.append((side, elem == 'T', name in ('write', 'get_mut'), fmt_span(t['span'])))
         for bb, si, st_ in b.statements():
             if st_['k'] == 'copy_nonoverlapping':
                 src_ty = (op_place(st_['src']) or {}).get('ty') or ''
                 elem = src_ty.replace('*const ', '').replace('*mut ', '')
                 check_copy(elem, st_['count'], fmt_span(st_.get('span')), 'copy_nonoverlapping')
+                side = st_['dst'] if name in ('write', 'get_mut') else st_['src']
+                accesses.append((side, elem == 'T', name in ('write', 'get_mut'), fmt_span(st_.get('span'))))
         if accesses:
             # every access must be `data + offset`; the primitive requires alignment if any unguarded aligned access exists
             access = sorted(accesses, key=lambda a: not a[1])[0]
@@ -330,7 +346,10 @@ def body_and_closures(crate, path):
 # -- C19 -------------------------------------------------------------------
 
 NONDET_TYPES = re.compile(r'(std::collections::hash|hashbrown::|RandomState|HashMap|HashSet|std::time::|std::thread::|rand::|rand_core::|rand_chacha::|getrandom::)')
-NONDET_CALLS = re.compile(r'^(std::env::(var|vars|var_os|vars_os|args|args_os|temp_dir|current_dir)|std::time::|std::thread::|std::process::id|rand|getrandom|std::collections::hash|hashbrown::|itertools::Itertools::(counts|counts_by|into_group_map|into_group_map_by|into_grouping_map|into_grouping_map_by|unique|unique_by|duplicates|duplicates_by|all_unique)|std::hash::random|core::ptr::[a-z_:<>* A-Za-z]*::(addr|expose_provenance|expose_addr)|std::fs::read_dir|std::sys)')
+NONDET_CALLS = re.compile(r'^(std::env::(var|vars|var_os|vars_os|args|args_os|temp_dir|current_dir)|std::time::|std::thread::|std::process::id|rand|getrandom|std::collections::hash|hashbrown::|itertools::Itertools::(counts|counts_by|into_group_map|into_group_map_by|into_grouping_map|into_grouping_map_by|unique|unique_by|duplicates|duplicates_by|all_unique)|std::hash::random|core::ptr::[a-z_:<>* A-Za-z]*::(addr|expose_provenance|expose_addr)|core::ptr::(eq|addr_eq|fn_addr_eq|hash)$|(alloc::rc::Rc|alloc::sync::Arc)::<[^>]*>::ptr_eq|<\*(const|mut) [A-Za-z_]+ as core::(cmp::(PartialEq|PartialOrd|Ord)|hash::Hash)>::|std::fs::read_dir|std::sys)')
+
+
+STATE_TYPES = re.compile(r'(core::cell::|std::cell::|std::sync::|core::sync::atomic|std::sync::atomic|alloc::sync::Arc<(core|std)::(cell|sync)|once_cell::|lazy_static::)')
 
 
 def scan_nondeterminism(ctx, crate, rule='N-DET', props=('C19',)):
@@ -356,11 +375,24 @@ def scan_nondeterminism(ctx, crate, rule='N-DET', props=('C19',)):
                 src = op_place(st['rv']['op'])
                 if src and (src.get('ty') or '').startswith(('*', '&')):
                     ctx.add(list(props), rule, b.key, 'pointer transmuted to an integer at %s' % fmt_span(st.get('span')), key='%s|ptr2int' % b.key)
+            # addresses as identity / order: comparing raw pointers
+            if st['k'] == 'assign' and st['rv']['k'] == 'bin' and st['rv']['op'] in ('Eq', 'Ne', 'Lt', 'Le', 'Gt', 'Ge') and not (st.get('span') or {}).get('exp'):
+                for side in ('l', 'r'):
+                    pl = op_place(st['rv'][side])
+                    ty = b.locals[pl['l']]['ty'] if pl and not pl['p'] else (pl or {}).get('ty')
+                    if (ty or '').startswith(('*const ', '*mut ')):
+                        ctx.add(list(props), rule, b.key, 'raw pointers compared at %s (`%s`): the answer depends on where values happen to live' % (fmt_span(st.get('span')), ty), key='%s|ptrcmp' % b.key)
+                        break
+        # state that outlives a call: statics holding interior-mutable / synchronised state
+        if (b.d.get('def_kind') or '').startswith('Static') and b.locals and STATE_TYPES.search(b.locals[0]['ty'] or ''):
+            ctx.add(list(props), rule, b.key, 'static of type `%s`: state shared between calls' % b.locals[0]['ty'], key='%s|static-state' % b.key)
     for adt in crate.adts.values():
         for v in adt['variants']:
             for f in v['fields']:
                 if NONDET_TYPES.search(f['ty'] or ''):
                     ctx.add(list(props), rule, adt['path'], 'field `%s: %s`' % (f['name'], f['ty']), key='%s|field|%s' % (adt['path'], f['name']))
+                elif STATE_TYPES.search(f['ty'] or ''):
+                    ctx.add(list(props), rule, adt['path'], 'field `%s: %s` is interior-mutable: a value that looks unchanged to its users can make the next call answer differently' % (f['name'], f['ty']), key='%s|state-field|%s' % (adt['path'], f['name']))
     return n_bodies, n_calls
 
 
